@@ -30,9 +30,12 @@ def render(p, rng, types_of):
     lines = []
     for d in p["defs"]:
         lo, hi = chr(d["lo"]), chr(d["hi"])
+        # the two letters of a range in independent letter case (DEFINT i-N)
         if rng.random() < 0.5:
-            lo, hi = lo.lower(), hi.lower()
-        lines.append("%s %s-%s" % (DEFKW[d["t"]], lo, hi) if lo != hi else "%s %s" % (DEFKW[d["t"]], lo))
+            lo = lo.lower()
+        if rng.random() < 0.5:
+            hi = hi.lower()
+        lines.append("%s %s-%s" % (DEFKW[d["t"]], lo, hi) if d["lo"] != d["hi"] else "%s %s" % (DEFKW[d["t"]], lo))
 
     def stmt(s, ind):
         k = s["k"]
@@ -62,7 +65,11 @@ def render(p, rng, types_of):
             return ind + 'PRINT "%s"' % "".join(chr(c) for c in s["text"])
         if k == "def":
             lo, hi = chr(s["lo"]), chr(s["hi"])
-            return ind + ("%s %s-%s" % (DEFKW[s["t"]], lo, hi) if lo != hi else "%s %s" % (DEFKW[s["t"]], lo))
+            if rng.random() < 0.5:
+                lo = lo.lower()
+            if rng.random() < 0.5:
+                hi = hi.lower()
+            return ind + ("%s %s-%s" % (DEFKW[s["t"]], lo, hi) if s["lo"] != s["hi"] else "%s %s" % (DEFKW[s["t"]], lo))
         raise ValueError(k)
 
     for s in p["main"]:
